@@ -222,6 +222,10 @@ func (p *Pool) Put(x any) {
 		p.st = append(p.st, x)
 	}
 	p.mu.Unlock()
+	// a second point AFTER the object became available: whoever gives an object back and goes on using it
+	// (reads of plain memory are not scheduling points) must be interruptible right here, or a use after
+	// release could never be observed
+	vsched.Point(vsched.OpMap, uintptr(unsafe.Pointer(p)))
 }
 
 type Map struct{ m rs.Map }
